@@ -141,6 +141,38 @@ func C14Indexed(t *testing.T, i int, seedBase uint64) (*Plan, bool) {
 	}
 	p := c14Plan(cs, seed, fmt.Sprintf("random event=%v fields=%v", cs.event, cs.fields))
 	p.Seed = seed
+	if g.chance(45) {
+		// a second integration on the same source and range with a data plan
+		// of its own: whatever one plan leaves in the source client's caches
+		// must not change what the other one stores
+		var cs2 c14Decl
+		var pool2 []string
+		switch g.R.IntN(3) {
+		case 0:
+			cs2.event = true
+			pool2 = append(append(append(pool2, c14Block...), c14Log...), "tx_hash", "tx_idx")
+		case 1:
+			pool2 = append(append(pool2, c14Block...), c14Tx...)
+		default:
+			pool2 = append(append(append(pool2, c14Block...), c14Tx...), c14Receipt...)
+		}
+		for _, pi := range g.R.Perm(len(pool2))[:g.between(1, 4)] {
+			cs2.fields = append(cs2.fields, pool2[pi])
+		}
+		if !cs2.event && len(cs2.fields) == 0 {
+			cs2.fields = []string{"block_time"}
+		}
+		q := c14Plan(cs2, seed, "")
+		d2 := q.Decls[0]
+		d2.Name = "ig1"
+		d2.Table.Name = "t_ig1"
+		p.Decls = append(p.Decls, d2)
+		if cs2.event {
+			p.Content.LogMax, p.Content.MinLogs = 2, 1
+		}
+		p.Sources[0].Batch = g.between(1, 3)
+		p.Note += fmt.Sprintf(" + second event=%v fields=%v", cs2.event, cs2.fields)
+	}
 	return p, true
 }
 
